@@ -373,6 +373,22 @@ class World:
                 h.state = "dropped"
         self.add_object(rid, st.get("wc", False))
 
+    def st_setcap_cur(self, st):
+        """Set the capacity to the current buffer size: nothing is flushed now, the next buffered save forces a flush."""
+        cls = self.cls_of(st["family"], st["kind"])
+        if not hasattr(cls, "set_buffer_capacity"):
+            raise Skip()
+        self.call(lambda: cls.set_buffer_capacity(cls.get_current_buffer_size()))
+
+    def st_symlink(self, st):
+        """Turn the resource's file into a symbolic link to the real file (objects are then bound to the link path)."""
+        r = self.res[st["rid"]]
+        if r.store != "file" or not os.path.exists(r.ident) or os.path.islink(r.ident):
+            raise Skip()
+        real = r.ident[:-5] + ".real.json"
+        os.rename(r.ident, real)
+        os.symlink(real, r.ident)
+
     def st_drop_gc(self, st):
         """Inside a backend-wide buffered context the user drops every reference to a collection object and the garbage
         collector runs (the "loop over many documents with short-lived objects" pattern).  Its pending buffered writes
